@@ -81,6 +81,26 @@ func renderAccept(rs []rng) string {
 	return strings.Join(parts, ", ")
 }
 
+// setAccept sends the same list of ranges in one of the spellings HTTP allows for a list header (RFC 9110 5.3, 5.6.1): one
+// line; one line per range; lines ending in a comma (an empty last element); an empty line between the lines.  The
+// abstract header - the list of ranges - and therefore the expected answer is the same for all of them (seed C08-20).
+func setAccept(req *http.Request, rs []rng, shape string) {
+	if shape == "" || len(rs) == 0 {
+		req.Header.Set("Accept", renderAccept(rs))
+		return
+	}
+	for i, r := range rs {
+		line := renderAccept([]rng{r})
+		if shape == "comma" && (i < len(rs)-1 || len(rs) == 1) {
+			line += ","
+		}
+		req.Header.Add("Accept", line)
+		if shape == "empty" && i == 0 {
+			req.Header.Add("Accept", "")
+		}
+	}
+}
+
 // ---- recorder ---------------------------------------------------------------
 
 type recorder struct {
@@ -124,6 +144,12 @@ func (probeResponder) WriteResponse(rw http.ResponseWriter, pr runtime.Producer)
 	}
 	rw.WriteHeader(http.StatusAccepted)
 }
+
+// probeErrResponder is a result that knows how to write itself AND is an error (a typed error response of a generated
+// server): returned as the handler's result it is still "a result that knows how to write itself" (seed C08-21)
+type probeErrResponder struct{ probeResponder }
+
+func (probeErrResponder) Error() string { return "responder that is also an error" }
 
 // libHeaders adds the header middleware.Error would have been given (NotImplemented takes none)
 func libHeaders(r middleware.Responder) middleware.Responder {
@@ -308,7 +334,7 @@ func request(rm M) *http.Request {
 			m := drv.Map(r)
 			rs = append(rs, rng{drv.Str(m["t"]), drv.Str(m["s"]), drv.Int(m["q"])})
 		}
-		req.Header.Set("Accept", renderAccept(rs))
+		setAccept(req, rs, drv.Str(rm["acceptlines"]))
 	}
 	switch drv.Str(rm["creds"]) {
 	case "good":
@@ -374,6 +400,9 @@ func execute(c *drv.Ctx, d M) bool {
 			case "value":
 				return "hello", nil
 			case "responder":
+				if drv.Str(out["class"]) == "alsoerror" {
+					return probeErrResponder{}, nil
+				}
 				return probeResponder{}, nil
 			case "libresponder": // the library's own Responders
 				if drv.Str(out["class"]) == "notimplemented" {
@@ -444,7 +473,7 @@ func execute(c *drv.Ctx, d M) bool {
 		}
 		c.W.Event("respond", M{"entry": rm["entry"], "method": rm["method"], "target": rm["target"], "creds": rm["creds"],
 			"keycreds": rm["keycreds"], "preset": drv.Str(rm["preset"]), "xhdr": rw.Header().Get("X-Verif-E"), "stale_responder_calls": rec.stale, "declared": drv.Map(d["declared"])[drv.Str(rm["method"])],
-			"accept": rm["accept"], "outcome": out, "status": rw.Code, "ctype": rw.Header().Get("Content-Type"),
+			"accept": rm["accept"], "acceptlines": drv.Str(rm["acceptlines"]), "outcome": out, "status": rw.Code, "ctype": rw.Header().Get("Content-Type"),
 			"produced": nn(rec.produced), "given": given, "body": asciiOnly(body), "errs": nn(rec.errs),
 			"wwwauth": asciiOnly(rw.Header().Get("WWW-Authenticate")), "panic": panicked})
 	}
@@ -491,6 +520,7 @@ var outcomes = []M{
 	{"k": "error", "class": "composite", "code": 422, "scripted": true},
 	{"k": "libresponder", "class": "error", "code": 409, "scripted": false},
 	{"k": "libresponder", "class": "notimplemented", "code": 501, "scripted": false},
+	{"k": "responder", "class": "alsoerror", "code": 0, "scripted": false},
 }
 
 var declaredSets = [][]int{{200}, {201, 200}, {204}, {204, 201}, {0}, {0, 200}, {404, 0}, {205}, {206, 205}, {203, 202}}
@@ -580,7 +610,9 @@ func req(entryPoint, method, target, creds string, accept any, outcome M) M {
 	if reqCount%3 == 0 {
 		preset = "text/x-site-default"
 	}
-	return M{"preset": preset, "entry": entryPoint, "method": method, "target": target, "creds": creds, "keycreds": "", "accept": accept, "outcome": outcome}
+	// the spelling of the Accept list rotates independently of the preset (period 5 against 3)
+	lines := []string{"", "lines", "", "comma", "empty"}[reqCount%5]
+	return M{"preset": preset, "entry": entryPoint, "method": method, "target": target, "creds": creds, "keycreds": "", "accept": accept, "acceptlines": lines, "outcome": outcome}
 }
 
 func generate(c *drv.Ctx) {
